@@ -305,7 +305,8 @@ C01Tiling(F) ==
 ExpDur(S, i) == IF i < Len(S) THEN S[i+1].dt - S[i].dt
                 ELSE IF Len(S) >= 2 THEN S[i].dt - S[i-1].dt ELSE None
 ExpCts(S, i) == S[i].pt - S[i].dt
-Wide(S, i) == S[i].pt = SAT \/ S[i].dt = SAT \/ Abs(ExpCts(S, i)) > cfg.i32
+Wide(S, i) == S[i].pt = SAT \/ S[i].dt = SAT \/ ExpCts(S, i) > cfg.i32
+              \/ -ExpCts(S, i) > (IF "i32n" \in DOMAIN cfg THEN cfg.i32n ELSE cfg.i32)
 
 C03Track(S, T, site) ==
     LET n == IF Len(S) < NSamp(T) THEN Len(S) ELSE NSamp(T)
@@ -316,7 +317,7 @@ C03Track(S, T, site) ==
          (IF \E i \in 1..n : ExpDur(S, i) # None /\ T.s[i].d # ExpDur(S, i)
           THEN {Sig("C03", "Duration", site,
                     IF \E i \in 1..(n-1) : T.s[i].d # ExpDur(S, i) THEN "inner" ELSE "last")} ELSE {})
-    \cup (IF \E i \in 1..n : "dr" \in DOMAIN T.s[i] /\ T.s[i].dr # 0
+    \cup (IF \E i \in 1..n : ExpDur(S, i) # None /\ "dr" \in DOMAIN T.s[i] /\ T.s[i].dr # 0
           THEN {Sig("C03", "Duration", site, "off-grid")} ELSE {})
     \cup (IF \E i \in 1..n : ~Wide(S, i) /\ T.s[i].c # ExpCts(S, i)
           THEN {Sig("C03", "CompositionOffset", site, "value")} ELSE {})
@@ -324,6 +325,36 @@ C03Track(S, T, site) ==
           THEN {Sig("C03", "CttsPresence", site, IF T.ctts THEN "spurious" ELSE "missing")} ELSE {})
     \cup (IF n = NSamp(T) /\ T.mdur # SumSeq([i \in 1..n |-> T.s[i].d]) /\ SumSeq([i \in 1..n |-> T.s[i].d]) <= cfg.w32dur
           THEN {Sig("C03", "MediaDuration", site, "mdhd")} ELSE {})
+
+(* ---- C16: no field is silently truncated ---- *)
+(* Evaluated on every successfully finished file.  In ordinary instances (unit 1) no boundary is  *)
+(* in reach and only the consistency clause (movie duration vs. tables) can fire; in boundary      *)
+(* instances (numeric embedding, DESIGN.md 2.4) values are logged as quotient/remainder w.r.t. the *)
+(* unit and the thresholds cfg.w32 / cfg.i32 / cfg.w32dur are floor(field max / unit).             *)
+SumDur(S) == SumSeq([i \in 1..Len(S) |-> IF ExpDur(S, i) = None THEN 0 ELSE ExpDur(S, i)])
+C16Track(S, T, site) ==
+    LET n == IF Len(S) < NSamp(T) THEN Len(S) ELSE NSamp(T) IN
+         (IF SumDur(S) > cfg.w32dur THEN {Sig("C16", "FieldsFit", site, "media-duration-exceeds-32-bit-field")} ELSE {})
+    \cup (IF \E i \in 1..n : S[i].pt # SAT /\ S[i].dt # SAT
+                              /\ (ExpCts(S, i) > cfg.i32 \/ -ExpCts(S, i) > (IF "i32n" \in DOMAIN cfg THEN cfg.i32n ELSE cfg.i32))
+          THEN {Sig("C16", "FieldsFit", site, "composition-offset-exceeds-32-bit-field")} ELSE {})
+    \cup (IF \E i \in 1..n : S[i].pt = SAT \/ S[i].dt = SAT
+          THEN {Sig("C16", "FieldsFit", site, "timestamp-saturated-by-seconds-to-ticks-cast")} ELSE {})
+    \cup (IF \E i \in 1..n : ExpDur(S, i) # None /\ ExpDur(S, i) > cfg.w32
+          THEN {Sig("C16", "FieldsFit", site, "sample-delta-exceeds-32-bit-field")} ELSE {})
+    \cup (IF \E i \in 1..n : (ExpDur(S, i) # None /\ ExpDur(S, i) <= cfg.w32 /\ "dr" \in DOMAIN T.s[i] /\ T.s[i].dr # 0)
+                              \/ (~Wide(S, i) /\ "cr" \in DOMAIN T.s[i] /\ T.s[i].cr # 0)
+          THEN {Sig("C16", "FieldsFit", site, "value-off-grid")} ELSE {})
+    \cup (IF Len(S) >= 2 /\ SumDur(S) <= cfg.w32dur /\ "mdurr" \in DOMAIN T /\ T.mdurr # 0 THEN {Sig("C16", "FieldsFit", site, "media-duration-off-grid")} ELSE {})
+
+(* movie duration (movie timescale 1000) vs. the longest track, ordinary instances only *)
+C16Movie(F) ==
+    IF cfg.mode # "third" \/ ~("mvdur" \in DOMAIN F) \/ ~("tracks" \in DOMAIN F) THEN {}
+    ELSE LET durs == { F.tracks[t].mdur : t \in 1..Len(F.tracks) }
+             longest == IF durs = {} THEN 0 ELSE MaxOf(durs)
+         IN IF F.mvts = 1000 /\ Abs(F.mvdur * 90 - longest) > 90
+            THEN {Sig("C16", "MovieDuration", "mvhd", IF F.mvdur * 90 < longest THEN "shorter-than-longest-track" ELSE "longer-than-longest-track")}
+            ELSE {}
 
 (* ---- C15 ---- *)
 Reordered(S) == \E i \in 1..Len(S) : S[i].pt # S[i].dt
